@@ -93,6 +93,9 @@ def build(cfg):
     rec = Rec(sink, [OnlyCustom(sink2), CustomStepsQuotes(sink3)])
     env = TradingEnv(BoxPortfolio(contracts, -1, 1), transmitter=tr, state=rec, latency=L,
                      episode_length=cfg["eplen"])
+    if cfg.get("late_ts"):
+        # the calendar of a second data source (the same grid points) registered AFTER the environment was built
+        tr.add_timesteps(list(G))
     keyed = [(e.time, "e%d" % i) for i, e in enumerate(evs)]
     idmap = {id(e): "e%d" % i for i, e in enumerate(evs)}
     kinds = {"e%d" % i: type(e).__name__ for i, e in enumerate(evs)}
@@ -310,7 +313,8 @@ def run_config(cfg):
 
 CROSSED = [("L", [0, 30, 0.1]), ("fold", ["whole", "late", "middle", "endmid", "startmid", "bothmid", "single"]), ("hist", ["all", "markov", "warm1", "warm2"])]
 DEVIATE = [("grid", ["min", "day", "mixed", "min12", "month"]), ("ncon", [2, 1]), ("eplen", [None, 1, 2]), ("start", [0, 1, 2]),
-           ("unsorted", [False, True]), ("extras_first", [False, True]), ("swap_extras", [False, True]), ("dropbar", [0, 1, 2]), ("latentonly", [0, 1, 2])]
+           ("unsorted", [False, True]), ("extras_first", [False, True]), ("swap_extras", [False, True]), ("dropbar", [0, 1, 2]), ("latentonly", [0, 1, 2]),
+           ("late_ts", [False, True])]
 
 
 def configs(tier):
@@ -373,7 +377,7 @@ def run(tier, **kw):
     rep.set("exhaustive", True)
     rep.set("rule", "one evaluation = one configuration run for two consecutive episodes on a real TradingEnv; enumerated: latency {0, 30 s, 0.1 s} x "
                     "fold {whole, late, middle, and three windows whose boundaries fall between two timesteps} x history {all, markov, warm-up 1 gap, warm-up 2 gaps} fully crossed, times every assignment of "
-                    "{grid shape, 1 or 2 contracts, episode length/start, unsorted+duplicated grid input, insertion order} and multisets of extra "
+                    "{grid shape, 1 or 2 contracts, episode length/start, unsorted+duplicated grid input, the grid registered a second time after the environment was built, insertion order} and multisets of extra "
                     "events (quote or custom event at each of ~26 region/boundary positions) with at most `deviation_bound_completed` deviations "
                     "in total; distinct_nontrivial = distinct delivery logs (kind, event, executions-so-far) among configurations with a non-default setting or an extra event")
     rep.set("samples", [cfgs[0], cfgs[len(cfgs) // 2], cfgs[-1]])
